@@ -211,6 +211,7 @@ def true_response_spectra(motion, dt, periods, xi):
     :param xi: float, fraction of critical damping (e.g. 0.05)
     :return: tuple floats, (spectral displacement, spectral velocity, spectral acceleration)
     """
+    periods = np.array(periods, dtype=float)  # accept list/tuple period containers (as pseudo_response_spectra does)
     resp_u, resp_v, resp_a = nigam_and_jennings_response(motion, dt, periods, xi)
     sas = absmax(resp_a, axis=1)
     svs = absmax(resp_v, axis=1)
